@@ -23,7 +23,7 @@ ASSUMPTIONS = ["tokens are ASCII plus a few non-ASCII letters (lower-cased with 
 F_TRAILING = "C11-trailing-text"
 TOKS = ["a", "B", "?x"]
 # a few non-ASCII letters: lower-casing leaves \u00df, \u00b5 and \u017f alone (case folding would not)
-ALPHA = "abcxyzABCXYZ0123456789-_?:=<>+*/." + "\u00df\u00c9\u00b5\u017f"
+ALPHA = "abcxyzABCXYZ0123456789-_?:=<>+*/." + "\u00df\u00c9\u00b5\u017f" + "#!%&@$^~,'\"[]{}|`\\#"   # ('#t' is PDDL+'s time token)
 # comment text: anything but a line end (LF; a lone CR is a line end for text files, so it is left out too)
 COMMENT_ALPHA = ("abcXYZ019 \t()();;:-_?'\"#|\\.,=" + "\x0b\x0c\x1c\x1d\x1e\x1f\x00\x7f\x85\xa0\u2028\u2029\u00e9\u3000")
 
